@@ -327,7 +327,7 @@ func TestC40(t *testing.T) {
 	for i, c := range corpus {
 		runCase(t, e, w, cs, st, c.ops, c.d0, fmt.Sprintf("corpus%d", i))
 	}
-	n := e.Pick(900, 15000)
+	n := e.Pick(900, 10000)
 	r := e.Rng
 	for i := 0; i < n; i++ {
 		pool := make([]string, 2+r.Intn(5))
